@@ -5,7 +5,7 @@
 # check against it (VERIF_REPO), and restores the checkout.  /repo itself is never touched.
 name=$1; shift
 d=/verif/seeded/srv-$name
-W=/tmp/seed/srv
+W=${SRV_BITE_W:-/tmp/seed/srv}
 [ -d $W/tarpc ] || git -C /repo worktree add --detach $W HEAD || exit 3
 git -C $W checkout -q -- . && git -C $W checkout -q --detach $(git -C /repo rev-parse HEAD)
 (cd $W && patch -p1 -s < $d/patch.diff) || { git -C $W checkout -- .; exit 3; }
